@@ -69,4 +69,58 @@ def channel [OfNat R 0] (rates : List R) (u : R) : Nat :=
 channel, one for the next threshold -/
 def drawsPerCollapse (nChannels : Nat) : Nat := if nChannels = 1 then 1 else 2
 
+/-! ### `InfluenceMartingale` (nm_mcsolve.py): the trace weight of a non-Markovian trajectory
+
+`seg t1 t2` stands for `_compute_continuous_martingale(t1, t2) = exp(a ∫_{t1}^{t2} shift)`; the bookkeeping around it
+(previous time and value, the table precomputed by `run`, the list of jump factors) is modelled as it is written. -/
+section martingale
+variable {T M : Type} [DecidableEq T] [LT T] [DecidableLT T] [Mul M] [OfNat M 1]
+
+structure Mart (T M : Type) where
+  tPrev : Option T          -- `None` before `initialize`
+  muPrev : M
+  table : List (T × M)      -- `_precomputed_continuous_martingale`: a dict, a later entry for a key replaces the earlier
+  disc : List (T × M)       -- (collapse time, factor)
+
+inductive Cache (T : Type)
+  | clear | keep | times (l : List T)
+
+def Mart.fresh : Mart T M := { tPrev := none, muPrev := 1, table := [], disc := [] }
+
+/-- the loop of `initialize` over the times to precompute -/
+def precompute (seg : T → T → M) : T → M → List T → List (T × M)
+  | _, _, [] => []
+  | t0, mu0, t1 :: rest => (t1, mu0 * seg t0 t1) :: precompute seg t1 (mu0 * seg t0 t1) rest
+
+def Mart.initialize (seg : T → T → M) (s : Mart T M) (t0 : T) : Cache T → Mart T M
+  | .clear => { tPrev := some t0, muPrev := 1, table := [], disc := [] }
+  | .keep => { s with tPrev := some t0, muPrev := 1, disc := [] }
+  | .times l => { tPrev := some t0, muPrev := 1, table := precompute seg t0 1 l, disc := [] }
+
+/-- `add_collapse`; `none` = RuntimeError (not started) -/
+def Mart.addCollapse (s : Mart T M) (time : T) (factor : M) : Option (Mart T M) :=
+  match s.tPrev with
+  | none => none
+  | some _ => some { s with disc := s.disc ++ [(time, factor)] }
+
+def Mart.lookup (s : Mart T M) (t : T) : Option M := (s.table.reverse.find? fun e => e.1 == t).map (·.2)
+
+/-- product of the factors of the collapses that happened before `t` -/
+def discProd (disc : List (T × M)) (t : T) : M := disc.foldl (fun acc e => if e.1 < t then acc * e.2 else acc) 1
+
+/-- the continuous part at `t`: from the table when `t` is one of the precomputed times, else extended from the
+previous query -/
+def Mart.contAt (seg : T → T → M) (s : Mart T M) (tp t : T) : M :=
+  match s.lookup t with
+  | some m => m
+  | none => s.muPrev * seg tp t
+
+/-- `value(t)`: the answer and the updated object; `none` = RuntimeError -/
+def Mart.value (seg : T → T → M) (s : Mart T M) (t : T) : Option (M × Mart T M) :=
+  match s.tPrev with
+  | none => none
+  | some tp =>
+    some (discProd s.disc t * s.contAt seg tp t, { s with tPrev := some t, muPrev := s.contAt seg tp t })
+end martingale
+
 end Qv.C16
